@@ -17,7 +17,7 @@ from pyvc import sym
 from pyvc.sym import lift, SComplex
 from pyvc.interp import PyRaise
 from pyvc.oblig import obligation, verify, bounded, Goal, merge, Inapplicable
-from .common import stable_rng, quick, Frame
+from .common import stable_rng, quick, Frame, num
 
 LEVEL = "proof"
 EXPLANATION = ("Histories: every sequence of <=3 mutators from {randomize(split A), randomize(split B with the same antenna totals), "
@@ -185,7 +185,78 @@ def _new(c, it, ext):
     return o, g
 
 
+def _native_views(o, raw, Nr, Nt, pl, K, n_ext):
+    """the views of a real channel object against an independent ghost (raw channel, current split, current path loss)"""
+    cumr, cumt = np.hstack([0, np.cumsum(Nr)]), np.hstack([0, np.cumsum(Nt)])
+    big = np.array(raw, dtype=complex)
+    Kt = K + n_ext
+    if pl is not None:
+        for k in range(K):
+            for l in range(Kt):
+                big[cumr[k]:cumr[k + 1], cumt[l]:cumt[l + 1]] *= np.sqrt(pl[k, l])
+    if np.shape(o.big_H) != big.shape or (not (np.abs(o.big_H - big).max() <= 1e-12)):
+        return {"view": "big_H", "differs from sqrt(path loss) * raw by": float(np.abs(o.big_H - big).max()) if np.shape(o.big_H) == big.shape else "shape"}
+    H = o.H
+    for k in range(K):
+        if (not (np.abs(o.get_Hk(k) - big[cumr[k]:cumr[k + 1]]).max() <= 1e-12)):
+            return {"view": "get_Hk(%d)" % k}
+        for l in range(Kt):
+            blk = big[cumr[k]:cumr[k + 1], cumt[l]:cumt[l + 1]]
+            if H[k, l].shape != blk.shape or (not (np.abs(H[k, l] - blk).max() <= 1e-12)):
+                return {"view": "H[%d,%d]" % (k, l), "observed": np.asarray(H[k, l]).tolist().__repr__()[:200], "expected": blk.tolist().__repr__()[:200]}
+            if l < K and (not (np.abs(o.get_Hkl(k, l) - blk).max() <= 1e-12)):
+                return {"view": "get_Hkl(%d,%d)" % (k, l)}
+    if n_ext and (not (np.abs(o.big_H_no_ext_int - big[:, :cumt[K]]).max() <= 1e-12)):
+        return {"view": "big_H_no_ext_int"}
+    return None
+
+
+def _native_history(seq, ext, seed=0):
+    """the mutator history of an obligation on a real object with generic values; first view that disagrees, or None"""
+    import pyphysim.channels.multiuser as mu
+    rr = np.random.RandomState(1234 + seed)
+    o = mu.MultiUserChannelMatrixExtInt() if ext else mu.MultiUserChannelMatrix()
+    st = {"raw": None, "Nr": None, "Nt": None, "pl": None}
+    done = []
+    for op in ("randA",) + tuple(seq):
+        if op in ("randA", "randB", "initB"):
+            Nr, Nt = SPLIT_A if op == "randA" else SPLIT_B
+            if op == "initB":
+                M = rr.randn(int(Nr.sum()), int(Nt.sum()) + (1 if ext else 0)) + 1j * rr.randn(int(Nr.sum()), int(Nt.sum()) + (1 if ext else 0))
+                o.init_from_channel_matrix(*([M.copy(), Nr.copy(), Nt.copy(), 2] + ([1] if ext else [])))
+                st["raw"] = M
+            else:
+                o.randomize(*([Nr.copy(), Nt.copy(), 2] + ([1] if ext else [])))
+                st["raw"] = np.array(o._big_H_no_pathloss)
+            st["Nr"], st["Nt"] = Nr.copy(), (np.hstack([Nt, [1]]) if ext else Nt.copy())
+        elif op in ("pl1", "pl2"):
+            P, E = rr.rand(2, 2), rr.rand(2, 1)
+            if ext:
+                o.set_pathloss(P.copy(), E.copy())
+                st["pl"] = np.hstack([P, E])
+            else:
+                o.set_pathloss(P.copy())
+                st["pl"] = P
+        elif op == "plNone":
+            o.set_pathloss()
+            st["pl"] = None
+        done.append(op)
+        bad = _native_views(o, st["raw"], st["Nr"], st["Nt"], st["pl"], 2, 1 if ext else 0)
+        if bad:
+            bad.update({"confirmed": True, "history": ">".join(done), "ext_int": bool(ext)})
+            return bad
+    return None
+
+
 def _one_history(seq, ext):
+    def rp(model):
+        for seed in range(3):
+            bad = _native_history(seq, ext, seed)
+            if bad:
+                return bad
+        return {"confirmed": False, "history": ">".join(("randA",) + tuple(seq)),
+                "note": "views of the real object agree with the ghost for generic values along this history"}
+
     def body(c, it):
         draws = []
         _install_models(c, it, draws)
@@ -197,7 +268,7 @@ def _one_history(seq, ext):
             _apply(c, it, o, g, op, draws, ext, str(i + 1))
             goals += _view_goals(c, it, o, g, "randA>" + ">".join(seq[:i + 1]), ext)
         return goals
-    return verify(body, check_side=False, timeout_ms=60000)
+    return verify(body, check_side=False, timeout_ms=60000, replay=rp)
 
 
 @obligation("views/rejected_reinitialisation_is_atomic", params=[{"ext": e} for e in (False, True)], timeout=300,
@@ -272,6 +343,100 @@ def ob_inductive(ext):
                     return _view_goals(c, it, o, g, "%s from caches %s pl=%s" % (op, cache_state, had_pl), ext)
                 res.append(verify(body, check_side=False, timeout_ms=60000))
     return merge(res)
+
+
+def _native_transmission(o, ext, W, rr, tag):
+    """one corrupt_data on a real object against  W^H (big_H x + last_noise)  (W None: unfiltered)"""
+    Nt = [2, 1]
+    data = np.empty(2, dtype=object)
+    for k in range(2):
+        data[k] = rr.randn(Nt[k], 2) + 1j * rr.randn(Nt[k], 2)
+    if ext:
+        xe = np.empty(1, dtype=object)
+        xe[0] = rr.randn(1, 2) + 1j * rr.randn(1, 2)
+        out = o.corrupt_data(data, xe)
+        xs = np.vstack(list(data) + list(xe))
+    else:
+        out = o.corrupt_data(data)
+        xs = np.vstack(list(data))
+    y = o.big_H @ xs
+    if o.noise_var is not None:
+        if o.last_noise is None or o.last_noise.shape != y.shape:
+            return {"confirmed": True, "step": tag, "last_noise": "missing although a noise variance is set"}
+        y = y + o.last_noise
+    elif o.last_noise is not None:
+        return {"confirmed": True, "step": tag, "last_noise": "present although no noise variance is set"}
+    rows = [1, 2]
+    if W is not None:
+        from scipy.linalg import block_diag
+        y = block_diag(*[np.asarray(w) for w in W]).conj().T @ y
+        rows = [1, 1]
+    r0 = 0
+    for k in range(2):
+        want = y[r0:r0 + rows[k]]
+        r0 += rows[k]
+        if np.shape(out[k]) != want.shape or (not (np.abs(out[k] - want).max() <= 1e-10 * max(1.0, np.abs(want).max()))):
+            return {"confirmed": True, "step": tag, "receiver": k, "observed": repr(np.asarray(out[k]).tolist())[:160],
+                    "expected W^H (big_H x + n)": repr(want.tolist())[:160]}
+    return None
+
+
+def _replay_transmit(ext, noise, filt):
+    def rp(model):
+        import pyphysim.channels.multiuser as mu
+        try:
+            for seed in range(3):
+                rr = np.random.RandomState(77 + seed)
+                o = mu.MultiUserChannelMatrixExtInt() if ext else mu.MultiUserChannelMatrix()
+                Nr, Nt = SPLIT_A
+                o.randomize(*([Nr.copy(), Nt.copy(), 2] + ([1] if ext else [])))
+                for _ in range(2):
+                    o.set_pathloss(*([rr.rand(2, 2)] + ([rr.rand(2, 1)] if ext else [])))
+                    o.big_H
+                nv = model.get("noise_var") if isinstance(model, dict) else None
+                o.noise_var = (float(num(nv, 0.3)) or 0.3) if noise else None
+                W = None
+                if filt:
+                    W = np.empty(2, dtype=object)
+                    for k in range(2):
+                        W[k] = rr.randn(int(Nr[k]), 1) + 1j * rr.randn(int(Nr[k]), 1)
+                    o.set_post_filter(W)
+                bad = _native_transmission(o, ext, W, rr, "noise=%s filter=%s" % (noise, filt))
+                if bad:
+                    return bad
+            return {"confirmed": False, "note": "real object transmits as specified for generic values in this configuration"}
+        except Exception as e:
+            return {"confirmed": False, "error": "replay crashed: %r" % (e,)}
+    return rp
+
+
+def _replay_filter_history(ext):
+    def rp(model):
+        import pyphysim.channels.multiuser as mu
+        try:
+            rr = np.random.RandomState(5)
+            o = mu.MultiUserChannelMatrixExtInt() if ext else mu.MultiUserChannelMatrix()
+            Nr, Nt = SPLIT_A
+            o.randomize(*([Nr.copy(), Nt.copy(), 2] + ([1] if ext else [])))
+            o.noise_var = None
+            mk = lambda k: rr.randn(int(Nr[k]), 1) + 1j * rr.randn(int(Nr[k]), 1)     # noqa: E731
+            W = np.empty(2, dtype=object)
+            W[0], W[1] = mk(0), mk(1)
+            o.set_post_filter(W)
+            bad = _native_transmission(o, ext, W, rr, "first")
+            if not bad:
+                W[1] = mk(1)
+                o.set_post_filter(W)
+                bad = _native_transmission(o, ext, W, rr, "same container, one filter replaced")
+            if not bad:
+                W2 = np.empty(2, dtype=object)
+                W2[0], W2[1] = mk(0), mk(1)
+                o.set_post_filter(W2)
+                bad = _native_transmission(o, ext, W2, rr, "fresh container")
+            return bad or {"confirmed": False, "note": "real object filters with the filters handed over last along this history"}
+        except Exception as e:
+            return {"confirmed": False, "error": "replay crashed: %r" % (e,)}
+    return rp
 
 
 @obligation("transmit/output_is_WH_H_x_plus_noise", params=[{"ext": e} for e in (False, True)], timeout=600,
@@ -356,7 +521,7 @@ def ob_transmit(ext):
                     r0 += np.shape(out[k])[0]
                 goals.append(Goal("out == W^H (big_H x + n), noise=%s filter=%s" % (noise, filt), sym.SBool(z3.And(conj))))
                 return goals
-            res.append(verify(body, check_side=False, timeout_ms=120000))
+            res.append(verify(body, check_side=False, timeout_ms=120000, replay=_replay_transmit(ext, noise, filt)))
     return merge(res)
 
 
@@ -412,7 +577,7 @@ def ob_filter_history(ext):
         it.call(it.getattr(o, "set_post_filter"), [W2])
         transmit("fresh container", W2)
         return goals
-    return verify(body, check_side=False, timeout_ms=60000)
+    return verify(body, check_side=False, timeout_ms=60000, replay=_replay_filter_history(ext))
 
 
 # ------------------------------------------------------------------ bounded native
